@@ -1627,11 +1627,22 @@ impl JsObject {
     /// and the characters of a String object included, symbols last: what spread, rest,
     /// Object.assign / values / entries copy from a source
     pub fn own_enumerable_entries(&self) -> Vec<(PropertyKey, JsValue)> {
+        self.own_enumerable_entries_with_getters()
+            .into_iter()
+            .map(|(key, value, _)| (key, value))
+            .collect()
+    }
+
+    /// As `own_enumerable_entries`, with the getter of each accessor property (whose value the
+    /// caller has to obtain by calling it)
+    pub fn own_enumerable_entries_with_getters(
+        &self,
+    ) -> Vec<(PropertyKey, JsValue, Option<JsObjectRef>)> {
         let mut entries = Vec::new();
         match &self.exotic {
             ExoticObject::Array { elements } => {
                 for (i, value) in elements.iter().enumerate() {
-                    entries.push((PropertyKey::Index(i as u32), value.clone()));
+                    entries.push((PropertyKey::Index(i as u32), value.clone(), None));
                 }
             }
             ExoticObject::StringObj(s) => {
@@ -1639,6 +1650,7 @@ impl JsObject {
                     entries.push((
                         PropertyKey::Index(i as u32),
                         JsValue::String(JsString::from(c.to_string())),
+                        None,
                     ));
                 }
             }
@@ -1648,7 +1660,12 @@ impl JsObject {
         for (key, prop) in self.properties.iter() {
             let is_covered_index = matches!(key, PropertyKey::Index(i) if (*i as usize) < covered);
             if prop.enumerable() && !is_covered_index {
-                entries.push((key.clone(), prop.value.clone()));
+                let getter = if prop.is_accessor() {
+                    prop.getter().cloned()
+                } else {
+                    None
+                };
+                entries.push((key.clone(), prop.value.clone(), getter));
             }
         }
         entries
